@@ -255,15 +255,31 @@ func rawEntries(infos []os.FileInfo) []Entry {
 }
 
 func shortStack() string {
-	s := string(debug.Stack())
-	// keep the frames below the panic
-	if i := strings.Index(s, "panic("); i >= 0 {
-		s = s[i:]
+	lines := strings.Split(string(debug.Stack()), "\n")
+	var out []string
+	seen := false
+	for _, l := range lines {
+		t := strings.TrimSpace(l)
+		if strings.HasPrefix(t, "panic(") {
+			seen = true
+			out = out[:0]
+			continue
+		}
+		if !seen || !strings.HasPrefix(l, "\t") {
+			continue
+		}
+		if i := strings.Index(t, " +0x"); i > 0 {
+			t = t[:i]
+		}
+		if strings.Contains(t, "/runtime/") {
+			continue
+		}
+		out = append(out, t)
+		if len(out) >= 6 {
+			break
+		}
 	}
-	if len(s) > 1800 {
-		s = s[:1800] + "..."
-	}
-	return s
+	return strings.Join(out, " < ")
 }
 
 // CheckKept verifies the snapshot clause for everything handed out so far: slices and
